@@ -62,6 +62,8 @@ type world struct {
 	ndial   int
 	pmu     sync.Mutex
 	ptrGen  map[string]int
+	roleTaken map[string]bool
+	ngenSeen  int
 	roleOf  map[uint64]string
 	cancel  map[int]context.CancelFunc
 	started map[int]bool
@@ -75,15 +77,20 @@ type world struct {
 
 func role(c int, r string) string { return fmt.Sprintf("%d.%s", c, r) }
 
-func (wd *world) genOfPtr(obj any) int {
+// genOfPtr maps a connection object to its generation. The allocator may hand the address of a collected connection to
+// a new one: a generation whose reader / writer role (suffix) is already taken by another goroutine cannot be this connection.
+func (wd *world) genOfPtr(obj any, suffix string) int {
 	k := fmt.Sprintf("%p", obj)
 	wd.pmu.Lock()
 	defer wd.pmu.Unlock()
-	if g, ok := wd.ptrGen[k]; ok {
+	if g, ok := wd.ptrGen[k]; ok && !wd.roleTaken[role(g, suffix)] {
+		wd.roleTaken[role(g, suffix)] = true
 		return g
 	}
-	g := len(wd.ptrGen) + 1
+	wd.ngenSeen++
+	g := wd.ngenSeen
 	wd.ptrGen[k] = g
+	wd.roleTaken[role(g, suffix)] = true
 	return g
 }
 
@@ -96,9 +103,9 @@ func (wd *world) roleFor(gid uint64, point string, obj any) string {
 	}
 	switch {
 	case strings.HasPrefix(point, "rl."):
-		r = role(wd.genOfPtr(obj), "R")
+		r = role(wd.genOfPtr(obj, "R"), "R")
 	case strings.HasPrefix(point, "wl."):
-		r = role(wd.genOfPtr(obj), "W")
+		r = role(wd.genOfPtr(obj, "W"), "W")
 	default:
 		r = fmt.Sprintf("g%d", gid)
 	}
@@ -441,7 +448,7 @@ func (wd *world) end() {
 
 func newWorld(w *vh.Writer, seed int64) *world {
 	wd := &world{ctl: sched.New(), w: w, srv: map[int]*memnet.Conn{}, srvbuf: map[int][]byte{}, pending: map[int]map[int]bool{}, srvDown: map[int]bool{},
-		seen: map[int]map[int]int{}, dialOut: map[int]string{}, ptrGen: map[string]int{}, roleOf: map[uint64]string{}, cancel: map[int]context.CancelFunc{},
+		seen: map[int]map[int]int{}, dialOut: map[int]string{}, ptrGen: map[string]int{}, roleTaken: map[string]bool{}, roleOf: map[uint64]string{}, cancel: map[int]context.CancelFunc{},
 		started: map[int]bool{}, result: map[int][]any{}, rnd: rand.New(rand.NewSource(seed))}
 	wd.ctl.RoleFor = wd.roleFor
 	return wd
